@@ -117,7 +117,7 @@ def gen_rounds():
     rounds = {"1": [], "2": [], "3": [], "4": [], "5": [], "6": []}
     for sid in matrix:
         rounds["1" if sid[0] == "C" else sid[1]].append(sid)
-    desc = {"1": "1 (two per property)", "2": "2 (three per property, told to avoid round 1)", "3": "3 (three per property, told to avoid rounds 1 and 2)", "4": "4 (three per property, told to avoid rounds 1-3)", "5": "5 (three per property, told to avoid rounds 1-4)", "6": "6 (six changes, last session; 5 of 6 reported on arrival by the own-property check)"}
+    desc = {"1": "1 (two per property)", "2": "2 (three per property, told to avoid round 1)", "3": "3 (three per property, told to avoid rounds 1 and 2)", "4": "4 (three per property, told to avoid rounds 1-3)", "5": "5 (three per property, told to avoid rounds 1-4)", "6": "6 (nine changes, last session; 8 of 9 reported on arrival by the own-property check)"}
     out = ["| round | changes kept | on arrival: own-property check | on arrival: some check | today: own-property check | today: sibling check only | today: none |", "|---|---|---|---|---|---|---|"]
     for rd in ("1", "2", "3", "4", "5", "6"):
         ids = rounds[rd]
